@@ -156,10 +156,13 @@ def step (st : St) (op : String) (got : String) : StepResult St :=
         match (cuts.splitOn ",").mapM String.toNat? with
         | some cs =>
           let segs := segsOf b cs
-          let r := Ndn.C04.Seg.parseR s (ic == "1") (Ndn.C03.newWireReader segs)
           let healthy := (segs.drop 1).all (fun x => !x.isEmpty)
+          -- small inputs run the WireReader model itself (ties C03/Reader.lean + parseR to the real code);
+          -- larger ones use the contiguous decoder, which `parseR_eq_parse` proves equal on healthy readers
+          let r := if b.length ≤ 40 then Ndn.C04.Seg.parseR s (ic == "1") (Ndn.C03.newWireReader segs)
+                   else parse s (ic == "1") b
           { st := st, expected := if healthy then some (clsText r) else none, spec := sp,
-            cov := [if healthy then "dec-wire" else "dec-wire-emptyseg"], nontrivial := true }
+            cov := [if !healthy then "dec-wire-emptyseg" else if b.length ≤ 40 then "dec-wire-model" else "dec-wire"], nontrivial := true }
         | none => { st := st, expected := none, spec := sp, cov := ["dec-wire"] }
     | _, _ => { st := st, expected := some "skip" }
   | ["rp", hex, cuts] =>
